@@ -5,8 +5,9 @@ finite grids executed on the real library and compared, case by case, with mc.re
 (RFC 8017 encoders / decoders written as plain predicates, pure Python pow for RSAEP/RSADP):
 
   c-v15    the C decoder pkcs1_decode through its Python binding on raw encoded messages:
-           length 11..18 x first two bytes in {00,01,02,FF}^2 x EVERY subset of zero positions
-           among the remaining bytes x expected_pt_len 0..len-10 x sentinel length {0,1,len,len+1}
+           length 11..18 (quick: 11..15) x first two bytes in {00,01,02,FF}^2 x EVERY subset of zero
+           positions among the remaining bytes x expected_pt_len 0..len-10 x sentinel length
+           {0,1,len,len+1}; header 00 02 only: length 19,20 (quick: 16,17)
   c-oaep   the C decoder oaep_decode through its binding: hash length 16/20/32 x EVERY string
            over {00,01,02,FF} for the part of DB after lHash (short DBs; all 256 / 65536 values
            for one / two bytes) x Y x lHash mismatch at each byte; long DBs: first non-zero
@@ -533,6 +534,9 @@ def oaep_em(kd, cfg, y, dmg, rest, acc):
     if dmg[0] is not None:
         lh[dmg[0]] ^= dmg[1]
     db = bytes(lh) + rest
+    if y > kd["n"] >> (8 * (k - 1)):             # no integer below n starts with this octet
+        acc.count("em_not_below_n_skipped")
+        return None
     for t in range(40):
         seed = seeded("c07seed/%s/%d" % (kd["name"], t), hl)
         em = forge_oaep(k, y, seed, db, hn, mgfh)
